@@ -156,7 +156,7 @@ def leaf_mutations(v, rng):
 
 def c19(ck):
     rng = random.Random(ck.seed)
-    quick = ck.tier == "quick"
+    quick = ck.quick
     ref = regenerate(["GrammarGen.v", "WireGen.v", "CertGen.v"])
     for n, msg in ref:
         ck.tie_broken.append("translator refused %s: %s" % (n, msg))
